@@ -95,6 +95,16 @@ macro_rules! impl_digest {
                 compressor.finalize_dirty()
             }
         }
+        /// Verification hooks: observe and overwrite the block counter.
+        #[cfg(cryptocorrosion_verif)]
+        impl $groestl {
+            pub fn verif_get_counter(&self) -> u64 {
+                self.block_counter
+            }
+            pub fn verif_set_counter(&mut self, c: u64) {
+                self.block_counter = c;
+            }
+        }
         impl Default for $groestl {
             fn default() -> Self {
                 Self::new_truncated($bits::U32 / 2)
@@ -145,6 +155,15 @@ impl Default for Groestl224 {
         Groestl224(Groestl256::new_truncated(224))
     }
 }
+#[cfg(cryptocorrosion_verif)]
+impl Groestl224 {
+    pub fn verif_get_counter(&self) -> u64 {
+        self.0.verif_get_counter()
+    }
+    pub fn verif_set_counter(&mut self, c: u64) {
+        self.0.verif_set_counter(c)
+    }
+}
 impl digest::BlockInput for Groestl224 {
     type BlockSize = U64;
 }
@@ -174,6 +193,15 @@ pub struct Groestl384(Groestl512);
 impl Default for Groestl384 {
     fn default() -> Self {
         Groestl384(Groestl512::new_truncated(384))
+    }
+}
+#[cfg(cryptocorrosion_verif)]
+impl Groestl384 {
+    pub fn verif_get_counter(&self) -> u64 {
+        self.0.verif_get_counter()
+    }
+    pub fn verif_set_counter(&mut self, c: u64) {
+        self.0.verif_set_counter(c)
     }
 }
 impl digest::BlockInput for Groestl384 {
